@@ -48,7 +48,7 @@ def cases(thorough):
                 yield {"block": "logical", "nvec": nvec, "op": opname, "kind": kind}
         for (u1, _) in UNIT_PAIRS:
             for dt in dts:
-                for sh in shapes:
+                for sh in sorted(set(shapes) | {"2x3", "2x1", "1x3"}):
                     yield {"block": "norm", "nvec": nvec, "u1": u1, "dt": dt, "shape": sh}
     lat = [-1, 0, 2]
     vecs = [v for v in itertools.product(lat, repeat=3)]
